@@ -1,11 +1,14 @@
 (* C16 -- Raw decoder segments exactly the bytes and agrees with the full decoder.
    Model/Raw.v mirrors RawDecoder.Decode (tied to raw.go by differential execution: segments, consumed count, error class).
-   Proved: the segments concatenate to exactly the consumed prefix (for every byte string).  The length clause is decided per
-   run against the independent record grammar of Model/Wire.v, and the agreement with the full decoder by the Go oracle
-   (same series of definitions and data messages whenever the full decoder accepts): C16_agree is not yet a theorem. *)
+   Proved: the segments concatenate to exactly the consumed prefix (for every byte string), and every segment has the length the
+   independent record grammar of Model/Wire.v prescribes: whenever the raw decoder accepts and the grammar segments the stream
+   at all (no record straddles the end of its data region, which the grammar rejects and the decoders tolerate), both give the
+   same segments (C16_lengths; record by record the two are the same function while the raw decoder's reads succeed).
+   The agreement with the full decoder is decided by the Go oracle (same series of definitions and data messages whenever the
+   full decoder accepts): C16_agree is not yet a theorem. *)
 From Coq Require Import NArith List Bool.
 Import ListNotations.
-From Fit Require Import Model.Raw Proofs.RawProofs.
+From Fit Require Import Model.Raw Model.Crc Run.RunC16 Proofs.RawProofs Proofs.RawWire.
 Open Scope N_scope.
 
 Theorem C16_concat : forall bs, result_ok bs (raw_decode bs).
@@ -15,6 +18,11 @@ Print Assumptions C16_concat.
 Theorem C16_concat_success : forall bs segs n, raw_decode bs = (segs, n, None) -> concat (map snd segs) = take n bs.
 Proof. exact raw_concat_success. Qed.
 Print Assumptions C16_concat_success.
+
+Theorem C16_lengths : forall bs, bytes_ok bs -> len bs < 4294967296 ->
+  let '(segs, n, e) := raw_decode bs in check_wire (bs, segs, n, e) = true.
+Proof. exact raw_lengths_are_the_grammar. Qed.
+Print Assumptions C16_lengths.
 
 Example C16_instance : exists segs, raw_decode [14; 32; 0; 0; 11; 0; 0; 0; 46; 70; 73; 84; 0; 0; 64; 0; 0; 0; 0; 1; 0; 1; 0; 0; 4; 9; 9] = (segs, 27, None) /\ length segs = 4%nat.
 Proof. eexists. split; [vm_compute; reflexivity|reflexivity]. Qed.
